@@ -189,6 +189,13 @@ def gen_case(rng, thorough=False):
     case['tLAdeg'] = rng.uniform(-180, 180) if rng.random() < 0.2 else 0.
     case['inc'] = rng.choice([1., 1., 0.5, 0., rng.uniform(0.01, 1.3)])
     case['seed'] = rng.randrange(1 << 30)
+    if rng.random() < 0.3:
+        # history: the SAME shell object was first defined with other prescribed amplitudes / pressures / torques and solved once, then
+        # re-defined to this case (a parameter study as users run it); everything below must belong to the CURRENT definition.
+        # (the axial-load definition Fc / Nxxtop / MLA is left alone: its caching is the recorded finding C20-conecyl-lb-default-load-order)
+        case['pre'] = dict(uTM=case['uTM'] + rng.choice([-1, 1]) * rng.uniform(0.2, 1.), thetaTdeg=case['thetaTdeg'] + rng.uniform(0.5, 2.),
+                           betadeg=case['betadeg'] + rng.uniform(0.5, 2.), tLAdeg=case['tLAdeg'] + 40.,
+                           P=case['P'] + 0.3 if 'clpt' in model else case['P'], T=case['T'] + 50., T_inc=case['T_inc'] - 20.)
     return case
 
 
@@ -328,6 +335,16 @@ def run_impl(case):
     o.cc = cc
     rs = np.random.RandomState(case['seed'])
     with contextlib.redirect_stdout(QUIET), np.errstate(all='ignore'):
+        if case.get('pre'):
+            for k, v in case['pre'].items():
+                setattr(cc, k, v)
+            try:
+                cc._rebuild()
+                cc.static(silent=True)
+            except Exception:                       # noqa  (an analysis the model rejects: the history is just the rebuild)
+                pass
+            for k in case['pre']:
+                setattr(cc, k, case[k])
         cc._rebuild()
         o.geom = tuple(float(v) for v in (cc.r1, cc.r2, cc.H, cc.L))
         o.sina, o.cosa = float(cc.sina), float(cc.cosa)
@@ -1021,6 +1038,11 @@ def correspondence(ctx):
 
 
 def _correspondence(ctx, rng, t0):
+    from tools import source_tie
+    # 0. source reading of the hand-written shell field / strain / imperfection sources (fg builds the load vector, fuvw is the field the
+    #    property speaks of): executed from the .pyx/.pxi text and compared with the compiled commons modules
+    if source_tie.check(ctx, 'C18', ('conecyl_clpt', 'conecyl_fsdt', 'mgi'), predicate=source_tie.conecyl_field_predicate):
+        return
     dist = dict(models={}, subsets={}, excluded={}, alpha0=0, forces=0, forces_inc=0, pressure=0, Fc=0, nxx_array=0,
                 pdC=0, pdT_theta=0, torque=0, LA=0, fext_errors=0, static_errors={}, static_nonfinite=0, malformed={},
                 max_vw_rel_err_after_known_deviations=0.)
